@@ -4,7 +4,7 @@ From PAFC06 Require Import Model Proofs.
 Import ListNotations.
 
 Definition res_role (r : role) : bool :=
-  match r with Marker | Summary | Results | SearchSummary | SamplesCsv | SamplesInfo => true | _ => false end.
+  match r with Marker | Summary | Results | SearchSummary | SamplesCsv | SamplesInfo | ResultExtra => true | _ => false end.
 
 Definition not_part (f : fstate) : Prop := match f with Part _ => False | _ => True end.
 
@@ -14,7 +14,7 @@ Definition eff_dir (s : fs) : dir := match fz s with ZFull snap => snap | _ => f
 Lemma complete_ext c g (d d' : dir) :
   (forall r, res_role r = true -> d' r = d r) -> complete c g d -> complete c g d'.
 Proof.
-  intros H [A [B [C [D E]]]]. unfold complete.
+  intros H [A [B [C [D [X E]]]]]. unfold complete.
   rewrite !H by reflexivity. repeat split; try assumption.
 Qed.
 
@@ -23,7 +23,7 @@ Definition nr_op (o : op) : Prop :=
   match o with
   | OW r _ | OA r | OR r => res_role r = false
   | ODMV _ | OZTW => True
-  | OZW | ORZ | OZMV => False
+  | OZW | ORZ | OZMV | OJMV _ _ => False
   end.
 
 Lemma res_role_neq r r' : res_role r = false -> res_role r' = true -> r <> r'.
@@ -102,7 +102,7 @@ Proof. revert l. induction b as [|b IH]; intro l; [reflexivity|]. destruct l; [d
 Lemma plan_no_zip cd c tag h s :
   fz s = ZAbsent ->
   plan cd c tag h s =
-    let p := pre_ops s in
+    let p := pre_ops cd s in
     let s2 := exec p s in
     let '(m, mo, sampled) := main_ops cd c tag s2 in
     match mo with
@@ -125,11 +125,11 @@ Lemma plan_after_restore cd c tag h s R :
 Proof.
   intros HR Hz. rewrite (plan_no_zip cd c tag _ (exec R s) Hz).
   unfold plan. rewrite HR. cbv zeta.
-  destruct (main_ops cd c tag (exec (pre_ops (exec R s)) (exec R s))) as [[m mo] sm].
+  destruct (main_ops cd c tag (exec (pre_ops cd (exec R s)) (exec R s))) as [[m mo] sm].
   destruct mo as [e|res]; [reflexivity|].
   rewrite skipn_add. rewrite Nat.add_assoc.
-  destruct (post_ops cd c res (skipn (length R + length (pre_ops (exec R s)) + length m) h)
-              (exec m (exec (pre_ops (exec R s)) (exec R s)))) as [q [e|]]; reflexivity.
+  destruct (post_ops cd c res (skipn (length R + length (pre_ops cd (exec R s)) + length m) h)
+              (exec m (exec (pre_ops cd (exec R s)) (exec R s)))) as [q [e|]]; reflexivity.
 Qed.
 
 Lemma plan_bad_zip cd c tag h s :
@@ -143,20 +143,20 @@ Proof. intros [A _]. unfold is_complete, present. rewrite A. reflexivity. Qed.
 Lemma completed_result_ok c g s :
   complete c g (fd s) -> completed_result s = inr (mkres g (expected_samples c g) false).
 Proof.
-  intros [A [B [C [D E]]]]. unfold completed_result, expected_samples. rewrite B.
+  intros [A [B [C [D [X E]]]]]. unfold completed_result, expected_samples. rewrite B.
   destruct (c_csv c); [destruct E as [E F]; rewrite E, F | rewrite E]; reflexivity.
 Qed.
 
 Lemma main_completed cd c tag g s :
   complete c g (fd s) ->
-  pre_ops s = [] /\ main_ops cd c tag s = ([], inr (mkres g (expected_samples c g) false), false).
+  pre_ops cd s = [] /\ main_ops cd c tag s = ([], inr (mkres g (expected_samples c g) false), false).
 Proof.
   intro H. unfold pre_ops, main_ops. rewrite (complete_is_complete c g s H).
   rewrite (completed_result_ok c g s H). split; reflexivity.
 Qed.
 
 Definition dir_op (o : op) : Prop :=
-  match o with OW _ _ | OA _ | OR _ | ODMV _ => True | _ => False end.
+  match o with OW _ _ | OA _ | OR _ | ODMV _ | OJMV _ _ => True | _ => False end.
 
 Lemma dir_op_fz o s : dir_op o ->
   fz (apply o s) = fz s /\ fz (apply_empty o s) = fz s /\ fz (cut o (apply o s)) = fz s.
